@@ -3,3 +3,5 @@
 package semap
 
 func verifGate(string) {}
+
+func verifNew(*SemMap) {}
